@@ -1,0 +1,6 @@
+//go:build verif
+
+// Contracts for this plugin, checked by /verif/govc (comment-only file).
+
+package serverid
+
